@@ -153,6 +153,73 @@ def run(ctx, col: Collector):
                   f'expression text in parentheses: e.g. `(a) || (b)` or `(1 + 2) * 3` would be emitted bare', node=bad or ex.node, file=ex.file)
     guarded(col, 'C03-column', 'column', column)
 
+    # ---------------------------------------------------------------- C03-form
+    def forms():
+        from .forms import form_obligation
+        keep = ANCHOR_HELPERS | {'render_expression', 'generate_comment_on'}
+        specs = [
+            (f'{SQLD}.column', 'render_column', r'(◦ ?)?"◦" ◦( PRIMARY KEY)?( AUTOINCREMENT)?( UNIQUE)?( NOT NULL)?( DEFAULT ◦)?',
+             '["comment"] "name" type [PRIMARY KEY] [AUTOINCREMENT] [UNIQUE] [NOT NULL] [DEFAULT value]'),
+            (f'{SQLD}.enum', 'render_enum', r'(◦ ?)?CREATE TYPE ◦ AS ENUM \( ?◦\*? ?\) ?;', 'CREATE TYPE name AS ENUM (items);'),
+            (f'{SQLD}.enum', 'render_enum_item', r"(◦ ?)?'◦',?", "'item',"),
+            (f'{SQLD}.index', 'create_components', r'(◦ ?)?CREATE (UNIQUE )?INDEX ("◦" )?(ON ◦ )?(USING ◦ )?\(◦\) ?;',
+             'CREATE [UNIQUE] INDEX ["name"] ON table [USING type] (keys);'),
+            (f'{SQLD}.index', 'render_pk', r'(◦ ?)?PRIMARY KEY \(◦\)', 'PRIMARY KEY (keys)'),
+            (f'{SQLD}.table', 'create_components', r'(◦ ?)?CREATE TABLE ◦ \( ?◦ ?\) ?;( ?◦\*)?', 'CREATE TABLE name (body); [index statements]'),
+            (f'{SQLD}.table', 'create_body', r'◦\*(, ?◦\*)*(, ?PRIMARY KEY \(◦\*?\))?', 'columns, pk indexes, inline references[, PRIMARY KEY (pk columns)]'),
+            (f'{SQLD}.expression', 'render_expression', r'\(◦\)', '(expression text)'),
+        ]
+        for mod_, fn_, pat, what in specs:
+            guarded(col, 'C03-form', fn_, lambda mod_=mod_, fn_=fn_, pat=pat, what=what: form_obligation(ctx, col, 'C03-form', mod_, fn_, pat, what, keep=keep))
+        CN = r""" ?COMMENT ON COLUMN ◦\."◦" IS '◦';"""
+        guarded(col, 'C03-form', 'render_column_notes', lambda: form_obligation(
+            ctx, col, 'C03-form', f'{SQLD}.table', 'render_column_notes', f'({CN})*|◦\\*?', """COMMENT ON COLUMN table."column" IS 'text';""", keep=keep,
+            require_some=f'({CN})+|◦\\*'))
+
+        def lit_eq_public(lits):
+            for l in lits:
+                if l[0] == 'eq' and "'public'" in l[1:]:
+                    return True
+                if l[0] == 'not' and isinstance(l[1], tuple) and l[1][0] == 'eq' and "'public'" in l[1][1:]:
+                    return False
+            return None
+
+        def not_public(lits):
+            v = lit_eq_public(lits)
+            return None if v is None else (not v)
+        CO = r"""COMMENT ON ◦ ("◦"\.)?"◦" IS '◦';"""
+        guarded(col, 'C03-form', 'generate_comment_on', lambda: form_obligation(
+            ctx, col, 'C03-form', f'{SQLD}.note', 'generate_comment_on', CO, """COMMENT ON <kind> ["schema".]"name" IS 'text';""", keep=keep,
+            pairs=[('schema-qualified', r'"◦"\."◦"', not_public, True,
+                    'the schema-qualified name is written for the default schema / the bare name for another schema: COMMENT ON addresses the wrong object')]))
+
+        def parent_is(cls):
+            def pred(lits):
+                for l in lits:
+                    if l[0] == 'isinstance' and str(l[1]).endswith('.parent') and cls in str(l[2]):
+                        return True
+                    if l[0] == 'not' and isinstance(l[1], tuple) and l[1][0] == 'isinstance' and str(l[1][1]).endswith('.parent') and cls in str(l[1][2]):
+                        return False
+                return None
+            return pred
+
+        def has_text(lits):
+            for l in lits:
+                if l[0] == 'truthy' and str(l[1]).endswith('.text'):
+                    return True
+                if l[0] == 'not' and isinstance(l[1], tuple) and l[1][0] == 'truthy' and str(l[1][1]).endswith('.text'):
+                    return False
+            return None
+        keep_note = (ANCHOR_HELPERS | {'render_expression'}) - {'generate_comment_on'}
+        RN = r"""COMMENT ON (TABLE|COLUMN) ("◦"\.)?"◦" IS '◦';|◦\*?|"""
+        guarded(col, 'C03-form', 'render_note', lambda: form_obligation(
+            ctx, col, 'C03-form', f'{SQLD}.note', 'render_note', RN, """COMMENT ON TABLE|COLUMN ["schema".]"name" IS 'text'; (or a plain comment)""",
+            keep=keep_note, require_some=r'COMMENT ON TABLE .*',
+            pairs=[('table-note', r'COMMENT ON TABLE', parent_is('Table'), False, 'COMMENT ON TABLE is written for a note whose parent is not a Table'),
+                   ('column-note', r'COMMENT ON COLUMN', parent_is('Column'), False, 'COMMENT ON COLUMN is written for a note whose parent is not a Column'),
+                   ('has-text', r'COMMENT ON', has_text, False, 'a COMMENT ON statement is written for a note that has no text')]))
+    forms()
+
     # ---------------------------------------------------------------- C03-table
     def table():
         mod = f'{SQLD}.table'
